@@ -114,13 +114,18 @@ def make_scenario(rng, sub=None, input_kind=None, force=None):
     if color == "auto":
         sc["env"]["TERM"] = rng.choice(["dumb", "xterm-256color"])
     # out-dir
-    od_kind = force.get("out_dir", rng.choice(["absent", "fresh", "fresh", "existing", "nested"] if sub != "emit" else ["fresh", "fresh", "existing", "nested", "absent"]))
+    od_kind = force.get("out_dir", rng.choice(["absent", "fresh", "fresh", "existing", "nested", "stale"] if sub != "emit" else ["fresh", "fresh", "existing", "nested", "stale", "absent"]))
     sc["out_dir_kind"] = od_kind
     sc["out_dir"] = None
     if od_kind != "absent":
-        sc["out_dir"] = {"fresh": "out", "existing": "out", "nested": "build/ir/out"}[od_kind]
+        sc["out_dir"] = {"fresh": "out", "existing": "out", "nested": "build/ir/out", "stale": "out"}[od_kind]
         if od_kind == "existing":
             sc["pre_dirs"].append("out")
+        if od_kind == "stale":
+            # an earlier emit left artefacts behind (newer than the sources)
+            for m in modules:
+                rel = (m[:-3] if m.endswith(".pn") else m) + ".pn.ll"
+                sc["pre_files"][os.path.join("out", rel)] = ("; ModuleID = '%s'\n; stale artefact of an earlier emit\n" % m).encode()
         sc["opts"] += ["--out-dir", sc["out_dir"]]
     if sub in ("build", "build_default", "emit") and opt("wasm", 0.12):
         sc["wasm"] = True
@@ -237,6 +242,8 @@ def exec_scenario(sc, wd, plan=None, keep=False, real_lli=False):
     write_files(wd, sc["files"])
     for d in sc["pre_dirs"]:
         os.makedirs(os.path.join(wd, d), exist_ok=True)
+    if sc.get("pre_files") and not sc.get("_no_pre_files"):
+        write_files(wd, sc["pre_files"])
     bindir = os.path.join(wd, "bin")
     os.makedirs(bindir)
     for name in sorted(set(sc["stubs"])):
@@ -375,7 +382,21 @@ def model_expect_zero(sc, calls):
     return (res == "exit 0", "backend:" + res)
 
 
-def judge(sc, obs, census, plan_kind, benign):
+def run_census(sc, wd):
+    """Fault-free run of a scenario. When the out-dir is pre-populated, the
+    artefacts a successful run must leave are taken from a twin run into a
+    fresh out-dir."""
+    census = exec_scenario(sc, wd)
+    census["artefacts_ref"] = census["artefacts"]
+    if sc.get("pre_files"):
+        twin = dict(sc)
+        twin["_no_pre_files"] = True
+        ref = exec_scenario(twin, wd + "-fresh")
+        census["artefacts_ref"] = ref["artefacts"]
+    return census
+
+
+def judge(sc, obs, census, plan_kind, benign, self_census=False):
     """-> list of (class, detail)"""
     viol = []
     calls, fired = parse_trace(obs["trace"])
@@ -413,9 +434,9 @@ def judge(sc, obs, census, plan_kind, benign):
                 data = obs["artefacts"].get(rel)
                 if data is None:
                     viol.append(("artefact_missing", "exit 0 but %s/%s does not exist" % (sc["out_dir"], rel)))
-                elif census is not None and census["rc"] == 0 and data != census["artefacts"].get(rel):
-                    viol.append(("artefact_corrupt", "exit 0 but %s differs from the fault-free run (%d vs %d bytes)" %
-                                 (rel, len(data), len(census["artefacts"].get(rel, b"")))))
+                elif census is not None and census["rc"] == 0 and data != census.get("artefacts_ref", census["artefacts"]).get(rel):
+                    viol.append(("artefact_corrupt", "exit 0 but %s differs from the fault-free run into a fresh directory (%d vs %d bytes)" %
+                                 (rel, len(data), len(census.get("artefacts_ref", census["artefacts"]).get(rel, b"")))))
                 elif not data.startswith(b"; ModuleID = '%s'" % m.encode()):
                     viol.append(("artefact_corrupt", "%s does not start with its ModuleID line" % rel))
         if sc["sub"] != "emit":
@@ -529,10 +550,10 @@ def _enum_job(args):
     cfg = TIERS[tier]
     sc = enum_scenario(seed, k)
     root = os.path.join(work_root(), "C18", "e%d" % k)
-    census = exec_scenario(sc, os.path.join(root, "census"))
+    census = run_census(sc, os.path.join(root, "census"))
     res = {"k": k, "name": sc["name"], "runs": 1, "violations": [], "fired": {}, "configured": {}, "sites": 0,
            "triples": set(), "trace_hashes": {sha("\n".join(census["trace"]))}, "branches": set(), "calls": len(census["trace"])}
-    v, calls, _ = judge(sc, census, None, "census", None)
+    v, calls, _ = judge(sc, census, census, "census", None)
     res["branches"].add(model_expect_zero(sc, calls)[1])
     for cls, d in v:
         res["violations"].append({"class": cls, "detail": d, "scenario": sc_json(sc), "plan": [], "fault": "none"})
@@ -572,12 +593,15 @@ def _enum_job(args):
 def sc_json(sc):
     d = dict(sc)
     d["files"] = {k: v.decode("utf-8", errors="surrogateescape") for k, v in sc["files"].items()}
+    d["pre_files"] = {k: v.decode("utf-8", errors="surrogateescape") for k, v in sc.get("pre_files", {}).items()}
+    d.pop("_no_pre_files", None)
     return d
 
 
 def sc_from_json(d):
     sc = dict(d)
     sc["files"] = {k: v.encode("utf-8", errors="surrogateescape") for k, v in d["files"].items()}
+    sc["pre_files"] = {k: v.encode("utf-8", errors="surrogateescape") for k, v in d.get("pre_files", {}).items()}
     return sc
 
 
@@ -599,13 +623,44 @@ def _grid_job(args):
                                                   "order": "parent_first", "config": "valid" if cell[2] else "none", "out_dir": "absent"})
     sc["name"] = "grid:%s:%s" % (sub, cell)
     wd = os.path.join(work_root(), "C18", "g%d" % idx)
-    obs = exec_scenario(sc, wd)
-    v, calls, _ = judge(sc, obs, None, "grid", None)
+    obs = run_census(sc, wd)
+    v, calls, _ = judge(sc, obs, obs, "grid", None)
     return {"cell": [sub, list(cell)], "backend": sc["backend_id"], "violations": [
         {"class": c, "detail": d, "scenario": sc_json(sc), "plan": [], "fault": "none"} for c, d in v], "n_cells": len(cells)}
 
 
 N_GRID = 20
+
+SCRIPTS = [{"read": "all", "exit": 0}, {"read": "all", "exit": 3}, {"read": "all", "exit": 255}, {"read": "all", "signal": 6},
+           {"read": "all", "signal": 9}, {"read": "all", "signal": 11}, {"read": "none", "exit": 0}, {"read": "none", "exit": 1},
+           {"read": "10", "exit": 0}, {"read": "all", "exit": 0, "out": b"out\n".hex(), "err": b"err\n".hex()}]
+
+
+def script_grid():
+    cells = []
+    for sub in ("run", "build"):
+        for silent in (False, True):
+            for si in range(len(SCRIPTS)):
+                for order in ("parent_first", "child_first"):
+                    if order == "child_first" and SCRIPTS[si].get("read") != "none":
+                        continue
+                    cells.append((sub, silent, si, order))
+    return cells
+
+
+def _script_grid_job(args):
+    """Every backend behaviour x --silent x subcommand x forced order."""
+    seed, idx = args
+    sub, silent, si, order = script_grid()[idx]
+    rng = rng_for(seed, "C18/scripts", idx)
+    sc = make_scenario(rng, sub, "valid_single", {"cell": (0, 0, 0), "silent": silent, "verbose": False, "script": dict(SCRIPTS[si]),
+                                                  "order": order, "config": "none", "out_dir": rng.choice(["absent", "fresh"])})
+    sc["name"] = "scripts:%s:silent=%s:%s:%s" % (sub, silent, SCRIPTS[si], order)
+    wd = os.path.join(work_root(), "C18", "k%d" % idx)
+    obs = run_census(sc, wd)
+    v, calls, _ = judge(sc, obs, obs, "script_grid", None)
+    return {"cell": [sub, silent, si, order], "branch": model_expect_zero(sc, calls)[1], "violations": [
+        {"class": c, "detail": d, "scenario": sc_json(sc), "plan": [], "fault": "none"} for c, d in v]}
 
 
 # ------------------------------------------------------------------ swarm --
@@ -623,10 +678,10 @@ def _swarm_job(args):
     seed, i = args
     sc, enabled, n_faults, rng = swarm_plan(seed, i)
     root = os.path.join(work_root(), "C18", "s%d" % i)
-    census = exec_scenario(sc, os.path.join(root, "census"))
+    census = run_census(sc, os.path.join(root, "census"))
     calls, _ = parse_trace(census["trace"])
     res = {"i": i, "runs": 1, "violations": [], "fired": {}, "configured": {}, "triples": set(), "trace_hashes": set(), "branches": set()}
-    v, calls0, _ = judge(sc, census, None, "census", None)
+    v, calls0, _ = judge(sc, census, census, "census", None)
     res["branches"].add(model_expect_zero(sc, calls0)[1])
     for cls, d in v:
         res["violations"].append({"class": cls, "detail": d, "scenario": sc_json(sc), "plan": [], "fault": "none"})
@@ -714,12 +769,12 @@ def minimise(v):
     root = os.path.join(work_root(), "C18", "min-%d" % os.getpid())
 
     def holds(sc2, plan):
-        census = exec_scenario(sc2, os.path.join(root, "c"))
+        census = run_census(sc2, os.path.join(root, "c"))
         obs = exec_scenario(sc2, os.path.join(root, "r"), plan=plan) if plan else census
         benign = all((":eintr:" in p or ":short:" in p) for p in plan) and bool(plan)
         if any(":short:" in p for p in plan) and any(":errno:" in p for p in plan):
             benign = False
-        vv, _, _ = judge(sc2, obs, census if plan else None, v.get("fault", ""), benign if plan else None)
+        vv, _, _ = judge(sc2, obs, census, v.get("fault", ""), benign if plan else None)
         return any(c == cls for c, _ in vv)
 
     plan = list(v["plan"])
@@ -824,6 +879,12 @@ def run(tier, seed):
         runs += 1
         grid_cells.append((res["cell"], res["backend"]))
         raw.extend(res["violations"])
+    script_cells = 0
+    for res in parallel_map(_script_grid_job, [(seed, i) for i in range(len(script_grid()))]):
+        runs += 1
+        script_cells += 1
+        branches.add(res["branch"])
+        raw.extend(res["violations"])
     swarm_done = 0
     for res in parallel_imap(_swarm_job, ((seed, i) for i in range(cfg["swarm"])), chunksize=4):
         absorb(res)
@@ -859,6 +920,8 @@ def run(tier, seed):
                                      "exhaustive_over": "every non-stdio call site of every enumerated scenario x every applicable fault kind; stdout/stderr sites sampled (first, last, random)",
                                      "intercepted_calls_in_census_runs": calls_total},
         "backend_resolution_cells": {"covered": len(grid_cells), "of": N_GRID, "cells": grid_cells},
+        "backend_script_grid_cells": {"covered": script_cells, "of": len(script_grid()),
+                                      "dimensions": "subcommand {run, build} x --silent x %d backend scripts x forced order" % len(SCRIPTS)},
         "swarm_runs": swarm_done,
         "real_lli_cross_checks": lli_runs,
         "fault_kinds_configured": configured,
@@ -888,12 +951,12 @@ def replay(record):
     sc = sc_from_json(record["scenario"])
     plan = record["plan"]
     root = os.path.join(work_root(), "C18", "replay-%d" % os.getpid())
-    census = exec_scenario(sc, os.path.join(root, "c"))
+    census = run_census(sc, os.path.join(root, "c"))
     obs = exec_scenario(sc, os.path.join(root, "r"), plan=plan) if plan else census
     benign = bool(plan) and all((":eintr:" in p or ":short:" in p) for p in plan)
     if any(":short:" in p for p in plan) and any(":errno:" in p for p in plan):
         benign = False
-    v, _, fired = judge(sc, obs, census if plan else None, record.get("fault") or "", benign if plan else None)
+    v, _, fired = judge(sc, obs, census, record.get("fault") or "", benign if plan else None)
     shutil.rmtree(root, ignore_errors=True)
     print("replay: argv: %s" % record.get("argv"))
     print("replay: plan %s fired %s -> %s" % (plan, fired, obs["status"]))
